@@ -20,7 +20,9 @@
 #ifndef AVAIL_OUT
 #define AVAIL_OUT 3
 #endif
+#ifndef PRE
 #define PRE (32768 + 258)
+#endif
 /* The reference gets room for one byte more than the window: enough to tell "fits" from "does not
  * fit" (then the only correct answer is OUT_OVERFLOW with the window filled) while keeping its
  * match-copy loop short (a 600-byte capacity made symbolic execution run > 15 min for N=1). */
